@@ -666,6 +666,8 @@ func ruleCacheSiblings(c *Ctx) {
 					if s.Key == 1 {
 						violations["a key-frame path returns false"] = ins
 					}
+				case isc && b && s.Key == 1:
+					// `return true` on the edge where the packet was classified as key frame: same value as the flag
 				default:
 					if flagName(rv) != "#key" {
 						violations["the result is not the key-frame classification of this packet"] = ins
